@@ -262,6 +262,7 @@ def check_affinity(scn, seed):
             for k, p in enumerate(scn["poison"]):
                 def pub(p=p, k=k):
                     q = mon.shared if p["to"] == "shared" else mon.inst_queue("n%d" % p["node"])
+                    res.sim.count("poison-message")
                     res.sim.broker.basic_publish(pch.rec, "", q, p["body"].encode(),
                                                  Props(content_type="application/json", message_id="poison-%d" % k))
                 res.sim.call_at(res.sim.now + p["at"], pub, None, kind="client", label="poison")
